@@ -36,6 +36,9 @@ func run(c *vlib.Ctx) {
 	c.Cases("hostile", q*4/10, func(k *vlib.Case) { oneCase(k, genHostile) })
 	c.Cases("smallpool", q*3/10, func(k *vlib.Case) { oneCase(k, genSmall(false)) })
 	c.Cases("smallpool-clean", q*3/10, func(k *vlib.Case) { oneCase(k, genSmall(true)) })
+	// hand-made minimal archives of the known deferred-chmod finding (kept so
+	// that every run shows whether the defect is still there)
+	c.Cases("witness", 4, func(k *vlib.Case) { oneCase(k, genWitness) })
 }
 
 // ---------------------------------------------------------------------------
@@ -604,6 +607,28 @@ func genSmall(clean bool) gen {
 		}
 		return variant, es, trunc, pre
 	}
+}
+
+// genWitness: the four minimal shapes of the deferred-chmod defect.
+func genWitness(k *vlib.Case, s *sandbox) (string, []entry, int, map[string]byte) {
+	variant, pre := s.prepopulate(k.R, 0, nil)
+	tm := time.Unix(1500000000, 0)
+	d := func(n string, m int64) entry { return entry{name: n, typ: tar.TypeDir, mode: m, mtime: tm} }
+	l := func(n, fromDir, victim string, abs bool) entry {
+		return entry{name: n, typ: tar.TypeSymlink, mode: 0o777, mtime: tm, link: s.linkTo(filepath.Join(s.target, fromDir), victim, abs)}
+	}
+	var es []entry
+	switch k.Index % 4 {
+	case 0: // applied by doUpdates at the end
+		es = []entry{d("r", 0o755), d("r/d", 0o777), l("r/d", "", "outside/victim.txt", false)}
+	case 1: // absolute link, directory victim
+		es = []entry{d("r", 0o755), d("r/d", 0o777), l("r/d", "", "outside/vdir", true)}
+	case 2: // applied early by deferUpdate when a shorter directory path follows
+		es = []entry{d("r", 0o755), d("r/d", 0o755), d("r/d/e", 0o777), l("r/d/e", "d", "outside/victim.txt", false), d("r/f", 0o700)}
+	default: // directory name cut at a NUL by the tar reader
+		es = []entry{d("r", 0o755), d("r/d"+nulMark+"x", 0o777), l("r/d", "", "outside/secret", false)}
+	}
+	return variant, es, -1, pre
 }
 
 var hostileComps = []string{"..", ".", "", "...", "a" + nulMark + "b", "é", " ", "a b", "..\\x", "-rf", strings.Repeat("L", 120), "tgt", "w", "lnk"}
